@@ -381,11 +381,27 @@ func GoTag(tag string, f func()) {
 	s := S
 	if s == nil {
 		live.Add(1)
-		go func() { defer live.Done(); f() }()
+		go func() {
+			defer live.Done()
+			defer func() {
+				if r := recover(); r != nil {
+					passMu.Lock()
+					if passPanic == "" {
+						passPanic = fmt.Sprintf("background goroutine (%s): %v | %s", tag, r, trimStack(debug.Stack()))
+					}
+					passMu.Unlock()
+				}
+			}()
+			f()
+		}()
 		return
 	}
 	if s.aborted {
 		runtime.Goexit()
+	}
+	if s.InlineTags[tag] {
+		f() // fork-join-inline: the child runs to completion at the spawn point
+		return
 	}
 	parent := s.cur
 	g := s.newG(parent, tag)
@@ -397,6 +413,21 @@ func GoTag(tag string, f func()) {
 }
 
 var live sync.WaitGroup
+
+var (
+	passMu    sync.Mutex
+	passPanic string
+)
+
+// TakePanic returns (and clears) the first panic of a background goroutine in
+// pass-through mode. The state it ran on may hold a lock forever: do not reuse it.
+func TakePanic() string {
+	passMu.Lock()
+	defer passMu.Unlock()
+	p := passPanic
+	passPanic = ""
+	return p
+}
 
 // Quiesce blocks the caller until every other goroutine started through Go has
 // finished (controlled mode: a blocking point; pass-through: a real wait).
